@@ -246,8 +246,10 @@ impl Check for C18 {
 
     fn budget(&self, tier: &str) -> u64 { if tier == "thorough" { 30_000 } else { 2_500 } }
 
-    fn generate(&self, seed: u64, _tier: &str, env: &Env) -> Trace {
+    fn generate(&self, seed: u64, tier: &str, env: &Env) -> Trace {
         let mut r = Rng::new(seed);
+        // thorough tier: half of the runs are three times as long (deeper histories)
+        let dm: u64 = if tier == "thorough" && seed % 2 == 0 { 3 } else { 1 };
         // the salt of the callback decisions is drawn first, so that the generator can aim lines at
         // particular accept/decline constellations
         let salt = r.next();
@@ -255,7 +257,7 @@ impl Check for C18 {
         let rated: Vec<String> = env.data.rates.keys().cloned().collect();
         let mut t = base_instant(&mut r, &env.host_rule);
         let mut events = Vec::new();
-        let n = 10 + r.below(30);
+        let n = (10 + r.below(30)) * dm;
         let mut rule_id = 0u32;
         let checkpoints = 1 + r.below(3);
         let mut cp_left = checkpoints;
